@@ -121,7 +121,9 @@ def run_split(w):
         halted = b1.emu.state.halted
         pc = st.pop("PC")
         b2 = Machine(b1.mem, fill, st)
-        b2.emu.state.halted = halted
+        if not (len(w) > 7 and w[7] == "nh"):
+            # "nh": the low-power flag is NOT carried (the property's state is registers, flags and memory)
+            b2.emu.state.halted = halted
         b2.writes = list(b1.writes)
         b2.steps(pc, k)
         rb = b2.show(False)
